@@ -43,6 +43,17 @@ def _hierarchy():
     return [Agent, A, C, S, G, E]
 
 
+import numpy as _np
+_NP_TAG = _np.int64(7)
+
+
+# two classes built dynamically with type(name, bases, namespace) from ONE shared attribute dict.  Built once, at import,
+# outside the symbolic run: CrossHair intercepts the 3-argument type() and hands it a copy of the namespace, which hides
+# exactly the sharing this pair is about (measured).  Their class-level stores are cleared at the start of every path.
+_NS = {"kind": "worker"}
+_DYNAMIC_TWINS = (type("Harvester", (Agent,), _NS), type("Carrier", (Agent,), _NS))
+
+
 def _factory_made():
     class Worker(Agent):
         pass
@@ -178,7 +189,11 @@ def class_component_history(c0: int, t0: int, c1: int, t1: int, c2: int, t2: int
     if hx.P.get('twins'):
         # two distinct live classes produced by the same class statement (a class factory called twice): same module, same
         # qualified name - still two classes
-        classes[1], classes[2] = _factory_made(), _factory_made()
+        if hx.P['twins'] == 'shared_namespace':
+            # ... or built dynamically with type(name, bases, namespace) from one shared attribute dict
+            classes[1], classes[2] = _DYNAMIC_TWINS
+        else:
+            classes[1], classes[2] = _factory_made(), _factory_made()
     Agent._components.clear()
     for c_ in classes:
         # every path starts from empty stores whatever earlier paths of this process left behind (the analysis re-runs
@@ -265,6 +280,13 @@ def default_tag(tA: int, tC: int, tS: int, tE: int, which: int, explicit: bool, 
         hx.reach('class_default')
     if inst.tag != want:
         return hx.end(hx.fail("instance tag", cls=cls.__name__, got=inst.tag, want=want, explicit=explicit))
+    if which != 5:
+        # an explicit tag wins whatever integer type it has (tags are often read out of numpy arrays) - and also when it is 0
+        for given in (_NP_TAG, 0, True):
+            got = cls("n", m, given).tag
+            if got != given:
+                return hx.end(hx.fail("explicit tag did not win", cls=cls.__name__, given=repr(given), got=got,
+                                      class_default=hx.pick(expect_cls, which)))
     # creating an instance changes no class default
     for i, c2 in enumerate(classes):
         if c2.tag != expect_cls[i]:
@@ -348,7 +370,7 @@ def obligations(tier):
           timeout=900, encoded=enc),
         X("class_component_history", class_component_history,
           parts=[{"ops": o} for o in (("aa", "ad", "a") if tier == "quick" else ("aa", "ad", "aaa", "aad", "ada", "add"))] +
-          [{"ops": o, "twins": True} for o in ("aa", "ad")],
+          [{"ops": o, "twins": tw} for o in ("aa", "ad") for tw in ("factory", "shared_namespace")],
           labels=("attached", "duplicate_rejected", "detached", "absent_rejected"),
           labels_for=lambda p: {"a": ("attached",), "aa": ("attached", "duplicate_rejected"), "ad": ("detached", "absent_rejected")}.get(p["ops"], ("attached",)),
           timeout=900, encoded=enc, bounds={"history": "<= %d attach/detach from fresh classes" % (2 if tier == "quick" else 3)}),
